@@ -61,6 +61,7 @@ pub fn gen_spec(ch: &mut Ch) -> WorldSpec {
         };
         let reduce = if ch.chance(1, 3, "d.reduce") && szx > 0 { Some((1 + ch.below(2, "d.reduce.after") as u32, ch.below(szx as u64, "d.reduce.szx") as u8)) } else { None };
         t.kind = TKind::Download { early, reduce };
+        t.b2_more = ch.chance(1, 8, "d.b2more");
         t.probe = match ch.below(3, "d.probe") {
             0 => Probe::None,
             1 => Probe::NoBlock2,
